@@ -154,7 +154,11 @@ def generate(seed: int, tier: str) -> Dict[str, Any]:
     rng = Rng(seed)
     r = rng.stream("gen")
     base = _payload(rng.stream("base"), "7")
+    if r.chance(0.06):
+        base = {}   # the very first snapshot of an engine that has nothing yet: an empty payload is a payload
     edits = _mutate(rng.stream("edits"), base)
+    if not base and not edits:
+        edits = [{"path": ["gel"], "kind": "set", "value": {"nodes": {}, "edges": {}}}]
     # "altered": the baseline is still a well-formed full snapshot of that etag, with another payload (bit rot that happens to
     # parse, a restore of an older file under the same name)
     fate = r.weighted([("intact", 4), ("never_written", 1), ("removed", 2), ("truncated", 1), ("garbled", 1), ("killed", 2), ("altered", 1)])
